@@ -25,8 +25,27 @@ var vAllowed bool // what the policy says for this call's (client, resource, act
 // order (a policy reload between two messages of one streaming call).
 var vPolicySeq []bool
 
+// the documented (resource, action) of the method under test, and the policy's
+// answers for anything else it may be asked about
+var (
+	vDocObj, vDocAct string
+	vOtherAnswers    = map[string]bool{}
+)
+
 func vInstallAuthzStandIns() {
 	vIntercept("(*github.com/liftbridge-io/liftbridge/server.apiServer).enforcePolicy", func(a *apiServer, sub, obj, act string) (bool, error) {
+		if obj != vDocObj || act != vDocAct {
+			// the policy is asked about something else than the documented
+			// (resource, action) of this method: it has an answer of its own
+			k := obj + "|" + act
+			r, ok := vOtherAnswers[k]
+			if !ok {
+				r = vNondetBool("policy-for-another-resource-or-action")
+				vOtherAnswers[k] = r
+			}
+			vCover("asked-about-something-else")
+			return r, nil
+		}
 		if len(vPolicySeq) > 0 {
 			r := vPolicySeq[0]
 			vPolicySeq = vPolicySeq[1:]
@@ -142,12 +161,17 @@ func VerifC15Authz() {
 	vAllowed = vNondetBool("policy-allows")
 	ctx := context.WithValue(context.Background(), "clientID", "alice")
 	method := vChoose(vParam("methods", 17))
+	doc := [][2]string{{"n", "CreateStream"}, {"s", "DeleteStream"}, {"s", "PauseStream"}, {"s", "SetStreamReadonly"}, {"*", "FetchMetadata"},
+		{"s", "FetchPartitionMetadata"}, {"s", "Publish"}, {"subj7", "PublishToSubject"}, {"s", "SetCursor"}, {"s", "FetchCursor"}, {"s", "Subscribe"},
+		{"s", "Publish"}, {"", ""}, {"", ""}, {"", ""}, {"", ""}, {"s", "Publish"}}
+	vDocObj, vDocAct = doc[method][0], doc[method][1]
+	vOtherAnswers = map[string]bool{}
 	var err error
 	read := false
 	ungated := false
 	switch method {
 	case 0:
-		_, err = a.CreateStream(ctx, &client.CreateStreamRequest{Name: "n", Subject: "n"})
+		_, err = a.CreateStream(ctx, &client.CreateStreamRequest{Name: "n", Subject: "subj.n"})
 	case 1:
 		_, err = a.DeleteStream(ctx, &client.DeleteStreamRequest{Name: "s"})
 	case 2:
@@ -163,7 +187,7 @@ func VerifC15Authz() {
 	case 6:
 		_, err = a.Publish(ctx, &client.PublishRequest{Stream: "s", Value: []byte{1}, AckPolicy: client.AckPolicy_NONE})
 	case 7:
-		_, err = a.PublishToSubject(ctx, &client.PublishToSubjectRequest{Subject: "s", Value: []byte{1}, AckPolicy: client.AckPolicy_NONE})
+		_, err = a.PublishToSubject(ctx, &client.PublishToSubjectRequest{Subject: "subj7", Value: []byte{1}, AckPolicy: client.AckPolicy_NONE})
 	case 8:
 		_, err = a.SetCursor(ctx, &client.SetCursorRequest{Stream: "s", CursorId: "c", Offset: 3})
 	case 9:
